@@ -770,6 +770,13 @@ func (ex *Exec) copyOp(dst, src Value) Value {
 	for i := int64(0); i < n; i++ {
 		*d.elem(i) = tmp[i]
 	}
+	// a whole-buffer copy carries the opaque payload handle / number tag of the source along
+	if ss, ok := src.(*SliceV); ok && (ss.tok != nil || ss.num != nil) {
+		if sl, ok1 := ss.len.IsConst(), d.len.IsConst(); sl && ok1 && int64(ss.len.val) == n && int64(d.len.val) == n {
+			d.tok = ss.tok
+			d.num = ss.num
+		}
+	}
 	return ex.i64(n)
 }
 
